@@ -104,6 +104,7 @@ Proof. split; vm_compute; reflexivity. Qed.
 
 Lemma src_channel_movers_locked :
   channel_mover shape_Channel_RequeueMessage = true /\
+  channel_mover shape_Channel_TouchMessage = true /\
   channel_mover shape_Channel_processInFlightQueue = true /\
   channel_mover shape_Channel_processDeferredQueue = true /\
   channel_mover shape_Channel_PutMessage = true.
